@@ -197,13 +197,25 @@ func build(tier string) []*explore.Scenario {
 				}
 				for _, closer := range closers {
 					s := scenario(hlib.ChanCfg{Q: q, Until: until}, lay, closer, bound)
-					if closer == "user-after-parent-cancel" {
-						s.Bound = bound - 1
+					if closer != "user" {
+						s.Bound = bound - 1 // the decisive window sits between the sender and the closing goroutine, whoever that is
 					}
 					s.Cache = true
 					scs = append(scs, s)
 				}
 			}
+		}
+	}
+	// larger queues: a burst of q+2 writes, then Close
+	for _, q := range []int{5, 8} {
+		var eps []hlib.EP
+		for i := 0; i < q+2; i++ {
+			eps = append(eps, []hlib.EP{hlib.Write1, hlib.Writev}[i%2])
+		}
+		for _, until := range []bool{true, false} {
+			s := scenario(hlib.ChanCfg{Q: q, Until: until}, layout{fmt.Sprintf("1w:burst(%d)", q+2), [][]hlib.EP{eps}}, "user", 2)
+			s.Cache = true
+			scs = append(scs, s)
 		}
 	}
 	// sender stalled inside the transport for less than the grace period
